@@ -3,8 +3,7 @@
    (its content) or a link (the name it points at), reading a name follows links, and the final step is what
    shutil.move does when the temp file and the destination are on one file system: os.rename, which replaces the
    destination's *entry* — a link at the destination is replaced by the file, it is not followed.  (On different file
-   systems shutil.move copies through the link and removes the temp file; the harness runs both and accepts, for
-   that case, the link's target as the one other entry that may change.)
+   systems shutil.move copies through the link and removes the temp file: serialize_to_lx at the end of this file.)
    Proved: after a successful call the named path reads as the whole serialisation, whatever the destination was — no
    entry, a file, a link to a file, a dangling link —, the file a link led to keeps its content, and every other entry
    is as before; after a failed call nothing but the temp entry differs. *)
@@ -38,5 +37,33 @@ Definition serialize_to_l (fs : lfs) (name tmp : string) (cs : list string) (f :
       else match f with
            | FaultAtMove => (fs2, false)
            | _ => (lset path (EFile content) (lremove tmp fs2), true)      (* os.rename(tmp, path) *)
+           end
+  end.
+
+(* ---- the temp file and the destination on different file systems.  os.rename fails with EXDEV and shutil.move falls
+   back to copy2(tmp, path); os.unlink(tmp).  copy2 opens the destination for writing, which FOLLOWS links: the text
+   lands in the file the chain of links ends at — created there when the last link dangles —, the links themselves stay.
+   (A chain longer than the fuel is ELOOP: the move raises and the temp file stays.)  Not modelled: the copy failing
+   half-way, which, unlike a failing rename, can leave a truncated destination — below the property's fault model
+   (a fault before a step) and recorded in DESIGN.md. *)
+Fixpoint lresolve (fuel : nat) (fs : lfs) (p : string) : option string :=
+  match lget fs p with
+  | Some (ELink q) => match fuel with O => None | S k => lresolve k fs q end
+  | _ => Some p
+  end.
+
+Definition serialize_to_lx (fuel : nat) (fs : lfs) (name tmp : string) (cs : list string) (f : fault) : lfs * bool :=
+  match dest_path name with
+  | None => (fs, true)
+  | Some path =>
+      let '(content, ok) := write_chunks cs "" (match f with FaultAtWrite k => Some k | _ => None end) in
+      let fs2 := lset tmp (EFile content) fs in
+      if negb ok then (fs2, false)
+      else match f with
+           | FaultAtMove => (fs2, false)
+           | _ => match lresolve fuel fs2 path with
+                  | Some r => (lset r (EFile content) (lremove tmp fs2), true)      (* copy2(tmp, path); unlink(tmp) *)
+                  | None => (fs2, false)
+                  end
            end
   end.
